@@ -16,6 +16,7 @@ import (
 	"bytes"
 	"compress/gzip"
 	"encoding/base64"
+	"encoding/gob"
 	"encoding/json"
 	"fmt"
 	"io"
@@ -32,6 +33,7 @@ import (
 	"syscall"
 	"testing/fstest"
 	"time"
+	"unicode/utf8"
 
 	g "github.com/philhassey/goatlang"
 )
@@ -420,7 +422,7 @@ func cmdC03One(a cmdArgs) {
 	b, err := os.ReadFile(a.file)
 	must(err)
 	var jobs []c03Job
-	must(json.Unmarshal(b, &jobs))
+	must(c03Ungob(b, &jobs))
 	w := bufio.NewWriter(os.Stdout)
 	for i := range jobs {
 		fmt.Fprintf(w, "START %d\n", jobs[i].ID)
@@ -455,8 +457,7 @@ func c03RunBatch(tmp string, tag string, jobs []c03Job) (results map[int]c03Resu
 	for len(rest) > 0 {
 		round++
 		file := filepath.Join(tmp, fmt.Sprintf("batch_%s_%d.json", tag, round))
-		b, _ := json.Marshal(rest)
-		must(os.WriteFile(file, b, 0o644))
+		must(os.WriteFile(file, c03Gob(rest), 0o644))
 		cmd := exec.Command(self, "c03-one", "-file", file)
 		cmd.Dir = tmp
 		var stderr bytes.Buffer
@@ -711,6 +712,10 @@ func c03Sigs(r *c03Result) []c03Sig {
 
 // c03Describe renders a long repetitive input compactly: runs of one byte become «"c"×n»
 func c03Describe(s string) string {
+	if !utf8.ValidString(s) {
+		// JSON cannot carry invalid UTF-8: show the Go-quoted form (the exact bytes are in job_gz)
+		return "Go-quoted: " + clip(strconv.QuoteToASCII(s), 3000)
+	}
 	if len(s) <= 600 {
 		return s
 	}
@@ -760,7 +765,7 @@ func c03MakeFailing(j *c03Job, r *c03Result, s c03Sig, shrunk bool, orig int) c0
 	} else {
 		f.Files, f.Arg = map[string]string{}, j.Arg
 		for k, v := range j.Files {
-			f.Files[k] = clip(v, 3000)
+			f.Files[k] = clip(c03Describe(v), 3000)
 		}
 	}
 	switch {
@@ -784,8 +789,18 @@ func c03MakeFailing(j *c03Job, r *c03Result, s c03Sig, shrunk bool, orig int) c0
 	return f
 }
 
+// Jobs travel between processes in gob, NOT JSON: encoding/json replaces every byte that is not valid
+// UTF-8 by U+FFFD, which would silently turn the invalid-UTF-8 and random-byte inputs into other inputs.
+func c03Gob(v any) []byte {
+	var buf bytes.Buffer
+	must(gob.NewEncoder(&buf).Encode(v))
+	return buf.Bytes()
+}
+
+func c03Ungob(b []byte, v any) error { return gob.NewDecoder(bytes.NewReader(b)).Decode(v) }
+
 func c03Pack(j *c03Job) string {
-	b, _ := json.Marshal(j)
+	b := c03Gob(j)
 	var buf bytes.Buffer
 	zw := gzip.NewWriter(&buf)
 	zw.Write(b)
@@ -806,7 +821,7 @@ func c03Unpack(s string) (j c03Job, err error) {
 	if err != nil {
 		return j, err
 	}
-	return j, json.Unmarshal(b, &j)
+	return j, c03Ungob(b, &j)
 }
 
 // c03-replay -file <replay.json>: re-runs the recorded failing jobs in a child and prints what happens now
@@ -950,12 +965,11 @@ func cmdC03Shrink(a cmdArgs) {
 	b, err := os.ReadFile(a.file)
 	must(err)
 	var req c03ShrinkReq
-	must(json.Unmarshal(b, &req))
+	must(c03Ungob(b, &req))
 	deadline := time.Now().Add(time.Duration(req.MS) * time.Millisecond)
 	j := req.Job
 	emit := func() {
-		out, _ := json.Marshal(j)
-		fmt.Println(string(out))
+		fmt.Println(base64.StdEncoding.EncodeToString(c03Gob(j)))
 	}
 	test := func(c *c03Job) bool {
 		ok, leaked := c03Has(c, req.Sig)
@@ -1049,8 +1063,7 @@ func cmdC03Shrink(a cmdArgs) {
 func c03Shrink(tmp string, idx int, j c03Job, s c03Sig, ms int) (c03Job, bool) {
 	self, _ := os.Executable()
 	file := filepath.Join(tmp, fmt.Sprintf("shrink_%d.json", idx))
-	b, _ := json.Marshal(c03ShrinkReq{Job: j, Sig: s, MS: ms})
-	must(os.WriteFile(file, b, 0o644))
+	must(os.WriteFile(file, c03Gob(c03ShrinkReq{Job: j, Sig: s, MS: ms}), 0o644))
 	defer os.Remove(file)
 	cmd := exec.Command(self, "c03-shrink", "-file", file)
 	cmd.Dir = tmp
@@ -1068,7 +1081,11 @@ func c03Shrink(tmp string, idx int, j c03Job, s c03Sig, ms int) (c03Job, bool) {
 	}
 	var res c03Job
 	lines := strings.Split(strings.TrimSpace(out.String()), "\n")
-	if len(lines) == 0 || json.Unmarshal([]byte(lines[len(lines)-1]), &res) != nil {
+	if len(lines) == 0 {
+		return j, false
+	}
+	raw, err := base64.StdEncoding.DecodeString(lines[len(lines)-1])
+	if err != nil || c03Ungob(raw, &res) != nil {
 		return j, false
 	}
 	return res, true
@@ -1439,17 +1456,23 @@ func cmdC03Deep(a cmdArgs) {
 	if a.thorough {
 		maxStack, label, limit, factor = 0, "Go default (1 GB limit, 512 MB usable)", 25*time.Second, 0
 		maxN = 8_192_000 // beyond that the token list of the source alone exhausts the child's address space
-		fams = []fam{fams[0], fams[1], fams[4], fams[6]}
+		fams = []fam{fams[0], fams[1], fams[2], fams[4], fams[5], fams[6]}
 	} else {
-		fams = []fam{fams[0], fams[1], fams[4], fams[6]}
+		steps = 2
+		fams = []fam{fams[0], fams[1], fams[2], fams[4], fams[5], fams[6]}
 	}
 	var results []c03DeepResult
 	for _, f := range fams {
 		res := c03DeepResult{Family: f.name, Example: f.example, Stage: f.stage, MaxStack: label}
 		lo, hi := 0, 0
-		n := 1000
+		// quick: the source families are probed once, at the largest depth (is there a depth limit or not?);
+		// the thorough tier brackets the killing depth
+		n, mult, fsteps := maxN, 8, 0
+		if f.name == "script-recursion" {
+			n, fsteps = 64000, steps
+		}
 		if a.thorough {
-			n = 60000
+			n, mult, fsteps = 60000, 4, steps
 		}
 		fatal := ""
 		// grow until a child dies
@@ -1460,16 +1483,16 @@ func cmdC03Deep(a cmdArgs) {
 			switch r {
 			case "survived":
 				lo = n
-				n *= 4
+				n *= mult
 			case "slow":
 				res.SlowSurvivors++
 				lo = n
-				n *= 4
+				n *= mult
 			default:
 				hi, fatal = n, r
 			}
 		}
-		for k := 0; k < steps && hi > 0 && hi-lo > hi/20; k++ {
+		for k := 0; k < fsteps && hi > 0 && hi-lo > hi/20; k++ {
 			mid := (lo + hi) / 2
 			r := c03DeepTry(tmp, c03DeepSpec{Family: f.name, N: mid, Stage: f.stage, MaxStack: maxStack}, limit)
 			res.ChildRuns++
@@ -1493,17 +1516,19 @@ func cmdC03Deep(a cmdArgs) {
 	// deep nesting of SOURCE (parser / compiler recursion) kills the host: one failing-input record for all
 	// front-end families (the script-recursion family is the running script's own resource use)
 	var front []c03DeepResult
+	var names []string
 	detail := ""
 	for _, r := range results {
 		// a death by memory exhaustion on a source of tens of megabytes is the size of the input, not its nesting
 		if r.Family != "script-recursion" && r.Dies > 0 && strings.Contains(r.Fatal, "stack overflow") {
 			front = append(front, r)
+			names = append(names, r.Family)
 			detail += fmt.Sprintf("%s: dies at depth %d (%d bytes of source), survives %d; ", r.Family, r.Dies, r.SourceBytes, r.Survives)
 		}
 	}
 	if len(front) > 0 {
 		st.mismatchG("deep-nesting", map[string]any{
-			"kind": "deep-nesting", "entry": "Eval / parse (in a child process)", "stage": "parse / compile recursion",
+			"kind": "deep-nesting", "family_names": strings.Join(names, ","), "entry": "Eval / parse (in a child process)", "stage": "parse / compile recursion",
 			"panic": front[0].Fatal, "go_max_stack": label, "input": c03Describe(c03DeepInput(front[0].Family, front[0].Dies)),
 			"detail": detail, "families": front,
 		})
